@@ -246,10 +246,15 @@ sets up the bundle invariant `BI`), `bundle_dag_memoises` (induction over the de
 every body satisfies the frame contract `BodyOK` relative to the modules defined before it, every
 accessor call returns the module's value, runs the body at most once per run, and keeps `BI`),
 `accessor_memoises`, `definition_scoped`, `inline_dag` (the real emission order IS dependency
-order). What is still missing: discharging `BodyOK` for arbitrary module bodies (it is proved for
-leaf bodies, `bodyOK_leaf`; the general case needs heap-monotonicity of the whole of `Sem` — the
-relation `SRel` of Shared/VisitorSound compares states with EQUAL cells and tables, so it does not
-provide it) and the simulation between the bundle's heap and the reference program's heap. The
+order). `bodyOK_requires` (the contract HOLDS for the first-order fragment: modules that require earlier
+modules and return a literal or a required value — diamonds included). What is still missing:
+discharging `BodyOK` for arbitrary module bodies and the simulation between the bundle's heap and the
+reference program's heap. Neither follows from the generic machinery on main: stage 3
+(`Shared/VisitorSoundHeap`, `Heap/*`) relates states whose tables, closures, globals and trace are
+EQUAL and whose cells correspond up to an injection with garbage; it is a relation between two runs,
+not a frame rule (it does not say that cells/tables a body cannot reach are left unchanged), and the
+bundle and the reference program allocate different tables and closures, which needs exactly the
+invariance that `Heap/General.lean` states as `renumbering_invariance` and does not prove. The
 harness checks the statement by execution on every generated graph instead. -/
 def bundle_refines_full : Prop :=
   ∀ (N : NumOps) (ρ : ExtOracle N) (externs : List String) (M : String) (mods : List (String × Src)) (entry : Src)
@@ -298,36 +303,66 @@ theorem bundle_prelude_establishes (call : CallFn N) (ρ : ExtOracle N) (k : Nat
       BI (layoutOf M env σ) infos (fun _ => none) σ' :=
   prelude_establishes call ρ k env M mods σ hne hMv hMI hnodup hcache
 
+theorem mem_take_of_getElem? {α : Type} {l : List α} {k n : Nat} {x : α} (hk : k < n) (h : l[k]? = some x) :
+    x ∈ l.take n :=
+  List.mem_of_getElem? (i := k) (by rw [List.getElem?_take]; simp [hk, h])
+
+theorem getElem?_of_mem_take {α : Type} {l : List α} {n : Nat} {x : α} (h : x ∈ l.take n) :
+    ∃ k, k < n ∧ l[k]? = some x := by
+  obtain ⟨k, hk⟩ := List.getElem?_of_mem h
+  rw [List.getElem?_take] at hk
+  by_cases hlt : k < n
+  · exact ⟨k, hlt, by simpa [hlt] using hk⟩
+  · simp [hlt] at hk
+
+/-- names that may become loaded -/
+def namesOf (ms : List ModInfo) : List String := ms.map (·.name)
+
 /-- What a call of module `m`'s accessor does at level `n + 2`, in ANY state satisfying the bundle
-invariant: it returns one value `w`, re-establishes the invariant with `m` loaded holding `w`,
-never unloads or changes an already loaded module, and — when `m` was already loaded — returns the
-stored value without running anything (trace and load map unchanged). -/
-def AccSpec (ρ : ExtOracle N) (L : Layout) (mods : List ModInfo) (m : ModInfo) (n : Nat) : Prop :=
-  ∀ (loaded : String → Option (Nat × Val N)) (args : List (Val N)) (σ : State N), BI L mods loaded σ →
+invariant (with `ps` the boxes of the accessor calls still in progress): it returns one value `w`,
+re-establishes the invariant with `m` loaded holding `w`, leaves the pending boxes alone, never
+unloads or changes an already loaded module, only loads modules of `upto`, and — when `m` was
+already loaded — returns the stored value without running anything (trace and load map unchanged). -/
+def AccSpec (ρ : ExtOracle N) (L : Layout) (mods : List ModInfo) (m : ModInfo) (upto : List ModInfo) (n : Nat) : Prop :=
+  ∀ (loaded : String → Option (Nat × Val N)) (args : List (Val N)) (ps : List Nat) (σ : State N),
+    BI L mods loaded σ → Pend L mods ps loaded σ →
     ∃ (w : Val N) (σ' : State N) (loaded' : String → Option (Nat × Val N)),
       callClosure ρ (n + 2) (accClosure L.M m.name (m.locals L)) args σ = .ok [w] σ' ∧
-      BI L mods loaded' σ' ∧
+      BI L mods loaded' σ' ∧ Pend L mods ps loaded' σ' ∧
       (∃ tb, loaded' m.name = some (tb, w)) ∧
       (∀ name x, loaded name = some x → loaded' name = some x) ∧
+      (∀ name, loaded' name ≠ none → loaded name ≠ none ∨ name ∈ namesOf upto) ∧
+      σ.cells.length ≤ σ'.cells.length ∧
       (∀ tb w0, loaded m.name = some (tb, w0) → w = w0 ∧ σ'.trace = σ.trace ∧ loaded' = loaded)
+
+theorem AccSpec.weaken {ρ : ExtOracle N} {L : Layout} {mods : List ModInfo} {m : ModInfo} {upto upto' : List ModInfo}
+    {n : Nat} (h : AccSpec ρ L mods m upto n) (hsub : ∀ x ∈ upto, x ∈ upto') : AccSpec ρ L mods m upto' n := by
+  intro loaded args ps σ hBI hP
+  obtain ⟨w, σ', loaded', h1, h2, h3, h4, h5, h6, h7, h8⟩ := h loaded args ps σ hBI hP
+  refine ⟨w, σ', loaded', h1, h2, h3, h4, h5, ?_, h7, h8⟩
+  intro name hn
+  rcases h6 name hn with h | h
+  · exact Or.inl h
+  · obtain ⟨x, hx, hxn⟩ := List.mem_map.mp h
+    exact Or.inr (List.mem_map.mpr ⟨x, hsub x hx, hxn⟩)
 
 /-- The assumption on a module body (the frame hypotheses of `accessor_memoises`, now relative to
 the invariant of the whole bundle): GIVEN that the accessors of the modules in `deps` behave as
 `AccSpec` says (at the levels `lvl` allows), the run of `m`'s wrapper from the state in which its
-accessor calls it returns, keeps the invariant (possibly with more modules loaded, `m` itself not),
-and leaves the accessor's fresh cell and box table alone. -/
+accessor calls it returns, keeps the invariant and the pending boxes — the accessor's own fresh box
+included —, loads at most modules of `deps` (not `m` itself), and keeps the accessor's fresh cell. -/
 def BodyOK (ρ : ExtOracle N) (L : Layout) (mods : List ModInfo) (lvl : ModInfo → Nat → Prop) (m : ModInfo) (n : Nat)
     (deps : List ModInfo) : Prop :=
-  (∀ d ∈ deps, ∀ n', lvl d n' → AccSpec ρ L mods d n') →
-  ∀ (loaded : String → Option (Nat × Val N)) (σ : State N), BI L mods loaded σ → loaded m.name = none →
+  (∀ d ∈ deps, ∀ n', lvl d n' → AccSpec ρ L mods d deps n') →
+  ∀ (loaded : String → Option (Nat × Val N)) (ps : List Nat) (σ : State N),
+    BI L mods loaded σ → Pend L mods ps loaded σ → loaded m.name = none →
     ∃ (vs : List (Val N)) (σb : State N) (loaded' : String → Option (Nat × Val N)),
       callClosure ρ (n + 1) (implClosure m.body (m.locals L)) []
         ((σ.allocCell .nil).2.allocTable { entries := [], mt := none }).2 = .ok vs σb ∧
-      BI L mods loaded' σb ∧ loaded' m.name = none ∧
+      BI L mods loaded' σb ∧ Pend L mods (σ.tables.length :: ps) loaded' σb ∧ loaded' m.name = none ∧
       (∀ name x, loaded name = some x → loaded' name = some x) ∧
-      σ.cells.length < σb.cells.length ∧ σ.tables.length < σb.tables.length ∧
-      σb.getTable σ.tables.length = { entries := [], mt := none } ∧
-      (∀ m' ∈ mods, ∀ tb w, loaded' m'.name = some (tb, w) → tb ≠ σ.tables.length)
+      (∀ name, loaded' name ≠ none → loaded name ≠ none ∨ name ∈ namesOf deps) ∧
+      σ.cells.length < σb.cells.length
 
 /-- **`bundle_dag_memoises`** — induction over the definition order. Let the modules `mods` be laid
 out as the prelude leaves them, in definition order (dependencies first, as `inline_dag` proves for
@@ -335,44 +370,48 @@ the real emission order), and let every body satisfy `BodyOK` relative to the mo
 BEFORE it. Then every accessor satisfies `AccSpec` at every admissible level: each call returns
 the module's single value, a module body runs at most once in the whole run (a loaded module is
 answered from its box with no event), all requirers receive the same value, values of loaded
-modules never change, and the invariant — hence all of this — holds again after the call. -/
+modules never change, only the module and modules defined before it get loaded, and the invariant —
+hence all of this — holds again after the call. -/
 theorem bundle_dag_memoises (ρ : ExtOracle N) (L : Layout) (mods : List ModInfo) (lvl : ModInfo → Nat → Prop)
     (hkeys : KeysDistinct mods)
     (hbody : ∀ (i : Nat) (m : ModInfo) (n : Nat), mods[i]? = some m → lvl m n → BodyOK ρ L mods lvl m n (mods.take i)) :
-    ∀ (i : Nat) (m : ModInfo) (n : Nat), mods[i]? = some m → lvl m n → AccSpec ρ L mods m n := by
+    ∀ (i : Nat) (m : ModInfo) (n : Nat), mods[i]? = some m → lvl m n → AccSpec ρ L mods m (mods.take (i + 1)) n := by
   intro i
   induction i using Nat.strongRecOn with
   | _ i ih =>
-    intro m n hmi hl loaded args σ hBI
+    intro m n hmi hl loaded args ps σ hBI hP
     have hm : m ∈ mods := List.mem_of_getElem? hmi
-    have hdeps : ∀ d ∈ mods.take i, ∀ n', lvl d n' → AccSpec ρ L mods d n' := by
+    have htake : ∀ x ∈ mods.take i, x ∈ mods.take (i + 1) := by
+      intro x hx
+      obtain ⟨j, hjlt, hj'⟩ := getElem?_of_mem_take hx
+      exact mem_take_of_getElem? (by omega) hj'
+    have hmtake : m ∈ mods.take (i + 1) := mem_take_of_getElem? (Nat.lt_succ_self i) hmi
+    have hdeps : ∀ d ∈ mods.take i, ∀ n', lvl d n' → AccSpec ρ L mods d (mods.take i) n' := by
       intro d hd n' hl'
-      obtain ⟨j, hj⟩ := List.getElem?_of_mem hd
-      have hjlt : j < i := by
-        by_cases h : j < i
-        · exact h
-        · have : (mods.take i)[j]? = none := by
-            simp only [List.getElem?_take]; simp [h]
-          rw [this] at hj; cases hj
-      have hj' : mods[j]? = some d := by
-        simp only [List.getElem?_take, hjlt, if_true] at hj; exact hj
-      exact ih j hjlt d n' hj' hl'
+      obtain ⟨j, hjlt, hj'⟩ := getElem?_of_mem_take hd
+      refine (ih j hjlt d n' hj' hl').weaken ?_
+      intro x hx
+      obtain ⟨k, hklt, hk'⟩ := getElem?_of_mem_take hx
+      exact mem_take_of_getElem? (by omega) hk'
     cases hload : loaded m.name with
     | some p =>
       obtain ⟨tb, w0⟩ := p
       have hh := bi_hit (callClosure ρ (n + 1)) ρ n L mods loaded m hm tb w0 [] σ hBI hload
-      refine ⟨w0, (σ.allocCell (.tbl tb)).2, loaded, ?_, hh.2, ⟨tb, hload⟩, fun _ _ h => h, ?_⟩
+      refine ⟨w0, (σ.allocCell (.tbl tb)).2, loaded, ?_, hh.2, hP.allocCell _, ⟨tb, hload⟩, fun _ _ h => h,
+        fun _ h => Or.inl h, by simp [State.allocCell], ?_⟩
       · simp only [accClosure, accFn]
         rw [callClosure_noparams, hh.1]
       · intro tb' w0' h
         cases h
         exact ⟨rfl, rfl, rfl⟩
     | none =>
-      obtain ⟨vs, σb, loaded', hrun, hb, hl', hmono, fcells, ftables, fboxT, hfresh⟩ :=
-        hbody i m n hmi hl hdeps loaded σ hBI hload
+      obtain ⟨vs, σb, loaded', hrun, hb, hPb, hl', hmono, hnew, fcells⟩ :=
+        hbody i m n hmi hl hdeps loaded ps σ hBI hP hload
+      obtain ⟨ftables, fboxT, _, _, hfresh⟩ := hPb σ.tables.length List.mem_cons_self
       have hmiss := bi_miss (callClosure ρ (n + 1)) ρ n L mods hkeys loaded loaded' m hm [] vs σ σb hBI hload hrun hb
         hl' fcells ftables fboxT hfresh
-      refine ⟨first vs, _, updLoaded loaded' m.name (σ.tables.length, first vs), ?_, hmiss.2, ?_, ?_, ?_⟩
+      refine ⟨first vs, _, updLoaded loaded' m.name (σ.tables.length, first vs), ?_, hmiss.2,
+        Pend.after_miss m.name (first vs) hP hPb, ?_, ?_, ?_, ?_, ?_⟩
       · simp only [accClosure, accFn]
         rw [callClosure_noparams, hmiss.1]
       · exact ⟨σ.tables.length, by simp [updLoaded]⟩
@@ -380,6 +419,17 @@ theorem bundle_dag_memoises (ρ : ExtOracle N) (L : Layout) (mods : List ModInfo
         have hne : name ≠ m.name := by
           intro e; rw [e, hload] at hx; cases hx
         simp [updLoaded, hne, hmono name x hx]
+      · intro name hn
+        by_cases hnm : name = m.name
+        · exact Or.inr (hnm ▸ List.mem_map.mpr ⟨m, hmtake, rfl⟩)
+        · simp only [updLoaded, hnm, if_false] at hn
+          rcases hnew name hn with h | h
+          · exact Or.inl h
+          · obtain ⟨x, hx, hxn⟩ := List.mem_map.mp h
+            exact Or.inr (List.mem_map.mpr ⟨x, htake x hx, hxn⟩)
+      · have : (afterMiss σb σ.cells.length σ.tables.length L.tC m.name (first vs)).cells.length = σb.cells.length := by
+          simp [afterMiss, State.rawSet, State.setTable, State.setCell, listSet_length]
+        omega
       · intro tb w0 h; cases h
 
 -- non-vacuity of `bundle_prelude_establishes` (two modules; the byte inequalities of the literal
@@ -403,23 +453,17 @@ example (call : CallFn natOps) (ρ : ExtOracle natOps) (σ : State natOps)
 theorem bodyOK_leaf (ρ : ExtOracle N) (L : Layout) (mods : List ModInfo) (lvl : ModInfo → Nat → Prop) (m : ModInfo)
     (hbodyEq : m.body = .mk [] (some (.ret [.false]))) (n : Nat) (deps : List ModInfo) :
     BodyOK ρ L mods lvl m n deps := by
-  intro _ loaded σ hBI hl
+  intro _ loaded ps σ hBI hP hl
   refine ⟨[.bool false], ((σ.allocCell .nil).2.allocTable { entries := [], mt := none }).2, loaded, ?_,
-    (hBI.allocCell _).allocTable, hl, fun _ _ h => h, ?_, ?_, ?_, ?_⟩
+    (hBI.allocCell _).allocTable, ?_, hl, fun _ _ h => h, fun _ h => Or.inl h, ?_⟩
   · simp [callClosure, implClosure, implFn, hbodyEq, execB, execSs, execLast, evalEs, evalE, Res.bind, bindLocals]
+  · exact (hP.allocCell _).allocTable_new (hBI.allocCell _)
   · simp [State.allocCell, State.allocTable]
-  · simp [State.allocCell, State.allocTable]
-  · simp [State.allocCell, State.allocTable, State.getTable]
-  · intro m' hm' tb w hlw
-    have sl := hBI.slots m' hm'
-    rw [hlw] at sl
-    have := sl.2.2.2.2.2
-    omega
 
 -- non-vacuity of `bundle_dag_memoises`: a one-module bundle whose module returns `false`; in every
 -- state satisfying the invariant its accessor obeys `AccSpec` at every level
 example (ρ : ExtOracle natOps) (L : Layout) (cI i a : Nat) (n : Nat) :
-    AccSpec ρ L [⟨"a", exBody, cI, i, a⟩] ⟨"a", exBody, cI, i, a⟩ n :=
+    AccSpec ρ L [⟨"a", exBody, cI, i, a⟩] ⟨"a", exBody, cI, i, a⟩ [⟨"a", exBody, cI, i, a⟩] n :=
   bundle_dag_memoises ρ L [⟨"a", exBody, cI, i, a⟩] (fun _ _ => True)
     (by intro m hm m' hm' _; simp at hm hm'; rw [hm, hm'])
     (by
@@ -431,6 +475,184 @@ example (ρ : ExtOracle natOps) (L : Layout) (cI i a : Nat) (n : Nat) :
       subst hm
       exact bodyOK_leaf ρ L _ _ _ rfl n _)
     0 _ n rfl trivial
+
+/-! ### the first-order fragment: modules that require earlier modules and return a value -/
+
+/-- `local d = M.<name>()` — what a `local d = require("…")` becomes in a bundled module -/
+def requireStmt (M name : String) : Stmt := .localAssign .loc [.mk "d" none] [accessorCall M name]
+
+/-- a module of the first-order fragment: it requires the modules `reqs` (in this order, each into
+the local `d`) and returns `ret` -/
+def reqBody (M : String) (reqs : List String) (ret : Expr) : Block :=
+  .mk (reqs.map (requireStmt M)) (some (.ret [ret]))
+
+theorem evalE_call_noargs (call : CallFn N) (ρ : ExtOracle N) (k : Nat) (env : Env N) (f : Expr) (kd : ArgKind)
+    (σ : State N) :
+    evalE call ρ k env (.call f none kd []) σ
+      = (evalE call ρ k env f σ).bind fun fv σ1 => callVal call ρ k (first fv) [] σ1 := by
+  simp [evalE, evalEs, Res.bind]
+
+theorem exec_requireStmt (ρ : ExtOracle N) (L : Layout) (mods deps : List ModInfo) (n' : Nat) (d : ModInfo)
+    (hd : d ∈ mods) (hspec : AccSpec ρ L mods d deps n') (hMd : L.M ≠ "d")
+    (env : Env N) (loaded : String → Option (Nat × Val N)) (ps : List Nat) (σ : State N)
+    (hM : lookupAssoc L.M env.locals = some L.cM) (hBI : BI L mods loaded σ) (hP : Pend L mods ps loaded σ) :
+    ∃ (env' : Env N) (σ' : State N) (loaded' : String → Option (Nat × Val N)),
+      execS (callClosure ρ (n' + 2)) ρ (n' + 2) env (requireStmt L.M d.name) σ = .ok (.next env') σ' ∧
+      lookupAssoc L.M env'.locals = some L.cM ∧ env'.varargs = env.varargs ∧
+      BI L mods loaded' σ' ∧ Pend L mods ps loaded' σ' ∧
+      (∀ name x, loaded name = some x → loaded' name = some x) ∧
+      (∀ name, loaded' name ≠ none → loaded name ≠ none ∨ name ∈ namesOf deps) ∧
+      σ.cells.length ≤ σ'.cells.length := by
+  obtain ⟨w, σ1, loaded', hcall, hBI1, hP1, _, hmono, hnew, hcells, _⟩ := hspec loaded [] ps σ hBI hP
+  have rd := hBI.ready d hd
+  have hfield : evalE (callClosure ρ (n' + 2)) ρ (n' + 2) env (.field (.var L.M) d.name) σ = .ok [.fn d.accId] σ := by
+    simp [evalE, lookupVar, hM, hBI.infra.cellM, Res.bind, indexVal, first, rd.field]
+  have hMd' : ("d" == L.M) = false := beq_eq_false_iff_ne.mpr (Ne.symm hMd)
+  refine ⟨⟨("d", σ1.cells.length) :: env.locals, env.varargs⟩, (σ1.allocCell w).2, loaded', ?_, ?_, rfl,
+    hBI1.allocCell _, hP1.allocCell _, hmono, hnew, ?_⟩
+  · have hE : evalE (callClosure ρ (n' + 2)) ρ (n' + 2) env (accessorCall L.M d.name) σ = .ok [w] σ1 := by
+      simp only [accessorCall]
+      rw [evalE_call_noargs, hfield]
+      simp only [Res.bind, first, List.headD, callVal, rd.acc]
+      exact hcall
+    simp [requireStmt, execS, evalEs, hE, Res.bind, bindLocals, TName.name, first]
+  · simp [lookupAssoc, hMd', hM]
+  · have : (σ1.allocCell w).2.cells.length = σ1.cells.length + 1 := by simp [State.allocCell]
+    omega
+
+theorem exec_requires (ρ : ExtOracle N) (L : Layout) (mods deps : List ModInfo) (n' : Nat) (hMd : L.M ≠ "d") :
+    ∀ (reqs : List ModInfo),
+      (∀ d ∈ reqs, d ∈ mods ∧ AccSpec ρ L mods d deps n') →
+      ∀ (env : Env N) (loaded : String → Option (Nat × Val N)) (ps : List Nat) (σ : State N),
+        lookupAssoc L.M env.locals = some L.cM → BI L mods loaded σ → Pend L mods ps loaded σ →
+        ∃ (env' : Env N) (σ' : State N) (loaded' : String → Option (Nat × Val N)),
+          execSs (callClosure ρ (n' + 2)) ρ (n' + 2) env (reqs.map fun d => requireStmt L.M d.name) σ
+            = .ok (.next env') σ' ∧
+          lookupAssoc L.M env'.locals = some L.cM ∧ env'.varargs = env.varargs ∧
+          BI L mods loaded' σ' ∧ Pend L mods ps loaded' σ' ∧
+          (∀ name x, loaded name = some x → loaded' name = some x) ∧
+          (∀ name, loaded' name ≠ none → loaded name ≠ none ∨ name ∈ namesOf deps) ∧
+          σ.cells.length ≤ σ'.cells.length := by
+  intro reqs
+  induction reqs with
+  | nil =>
+    intro _ env loaded ps σ hM hBI hP
+    exact ⟨env, σ, loaded, by simp [execSs], hM, rfl, hBI, hP, fun _ _ h => h, fun _ h => Or.inl h, Nat.le_refl _⟩
+  | cons d rest ih =>
+    intro hreq env loaded ps σ hM hBI hP
+    obtain ⟨hd, hspec⟩ := hreq d List.mem_cons_self
+    obtain ⟨env1, σ1, loaded1, hex1, hM1, hva1, hBI1, hP1, hmono1, hnew1, hc1⟩ :=
+      exec_requireStmt ρ L mods deps n' d hd hspec hMd env loaded ps σ hM hBI hP
+    obtain ⟨env2, σ2, loaded2, hex2, hM2, hva2, hBI2, hP2, hmono2, hnew2, hc2⟩ :=
+      ih (fun x hx => hreq x (List.mem_cons_of_mem _ hx)) env1 loaded1 ps σ1 hM1 hBI1 hP1
+    refine ⟨env2, σ2, loaded2, ?_, hM2, hva2.trans hva1, hBI2, hP2, fun name x h => hmono2 name x (hmono1 name x h),
+      ?_, by omega⟩
+    · simp only [List.map_cons, execSs, hex1, Res.bind]
+      exact hex2
+    · intro name hn
+      rcases hnew2 name hn with h | h
+      · exact hnew1 name h
+      · exact Or.inr h
+
+/-- **Bodies of the first-order fragment satisfy the contract.** A module that requires earlier
+modules `reqs` (each through its accessor, into a local) and returns an expression whose evaluation
+is pure — a literal, or the local holding a required value — satisfies `BodyOK`: its run returns,
+keeps the bundle invariant and every pending box, loads only modules defined before it. This is the
+step that makes `bundle_dag_memoises` a genuine induction: diamonds (`a` and `b` both requiring
+`c`) are covered, `c` being answered from its box the second time. -/
+theorem bodyOK_requires (ρ : ExtOracle N) (L : Layout) (mods : List ModInfo) (lvl : ModInfo → Nat → Prop) (m : ModInfo)
+    (deps reqs : List ModInfo) (ret : Expr) (n' : Nat)
+    (hbody : m.body = reqBody L.M (reqs.map (·.name)) ret)
+    (hMd : L.M ≠ "d")
+    (hreqs : ∀ d ∈ reqs, d ∈ mods ∧ d ∈ deps ∧ lvl d n')
+    (hname : m.name ∉ namesOf deps)
+    (hret : ∀ (env : Env N) (σ : State N), ∃ v, evalE (callClosure ρ (n' + 2)) ρ (n' + 2) env ret σ = .ok [v] σ) :
+    BodyOK ρ L mods lvl m (n' + 2) deps := by
+  intro hdeps loaded ps σ hBI hP hl
+  have hBI2 : BI L mods loaded ((σ.allocCell .nil).2.allocTable { entries := [], mt := none }).2 :=
+    (hBI.allocCell _).allocTable
+  have hP2 : Pend L mods (σ.tables.length :: ps) loaded ((σ.allocCell .nil).2.allocTable { entries := [], mt := none }).2 :=
+    (hP.allocCell _).allocTable_new (hBI.allocCell _)
+  obtain ⟨env', σ', loaded', hex, _, _, hBI', hP', hmono, hnew, hcells⟩ :=
+    exec_requires ρ L mods deps n' hMd reqs
+      (fun d hd => ⟨(hreqs d hd).1, hdeps d (hreqs d hd).2.1 n' (hreqs d hd).2.2⟩)
+      ⟨m.locals L, []⟩ loaded (σ.tables.length :: ps) _ (lookup_M_locals L m σ hBI.infra) hBI2 hP2
+  obtain ⟨v, hv⟩ := hret env' σ'
+  refine ⟨[v], σ', loaded', ?_, hBI', hP', ?_, hmono, hnew, ?_⟩
+  · simp only [implClosure, implFn]
+    rw [callClosure_noparams, hbody]
+    simp only [reqBody, List.map_map, execB]
+    have hex' : execSs (callClosure ρ (n' + 2)) ρ (n' + 2) ⟨m.locals L, []⟩
+        (List.map (requireStmt L.M ∘ fun x => x.name) reqs) _ = _ := hex
+    rw [hex']
+    simp [Res.bind, execLast, evalEs, hv]
+  · cases hq : loaded' m.name with
+    | none => rfl
+    | some x =>
+      exfalso
+      rcases hnew m.name (by rw [hq]; simp) with h | h
+      · exact h hl
+      · exact hname h
+  · have : ((σ.allocCell (.nil : Val N)).2.allocTable { entries := [], mt := none }).2.cells.length = σ.cells.length + 1 := by
+      simp [State.allocCell, State.allocTable]
+    omega
+
+-- non-vacuity of `bodyOK_requires` + `bundle_dag_memoises`: a diamond-shaped bundle
+--   c: `return false`     a: `local d = M.c()  return d`     t: `local d = M.a()  local d = M.c()  return d`
+-- (`c` is reached twice from `t`). In every state satisfying the invariant the accessor of `t` obeys
+-- `AccSpec` at level 4. (Distinctness of the names as table keys is passed in: string literals do not
+-- reduce in the kernel.)
+section diamond
+def exC : ModInfo := ⟨"c", exBody, 10, 20, 21⟩
+def exA : ModInfo := ⟨"a", reqBody "M" ["c"] (.var "d"), 11, 22, 23⟩
+def exT : ModInfo := ⟨"t", reqBody "M" ["a", "c"] (.var "d"), 12, 24, 25⟩
+def exLvl : ModInfo → Nat → Prop := fun m n => m = exC ∨ (m = exA ∧ n = 2) ∨ (m = exT ∧ n = 4)
+
+example (ρ : ExtOracle natOps) (L : Layout) (hM : L.M = "M") (hkeys : KeysDistinct [exC, exA, exT]) :
+    AccSpec ρ L [exC, exA, exT] exT [exC, exA, exT] 4 := by
+  have hMd : L.M ≠ "d" := by rw [hM]; decide
+  have hne : ∀ m m' : ModInfo, m.name ≠ m'.name → m ≠ m' := fun m m' h e => h (e ▸ rfl)
+  refine bundle_dag_memoises ρ L [exC, exA, exT] exLvl hkeys ?_ 2 exT 4 rfl (Or.inr (Or.inr ⟨rfl, rfl⟩))
+  intro i m n hi hl
+  match i, hi with
+  | 0, hi =>
+    have : m = exC := by simpa using hi.symm
+    subst this
+    exact bodyOK_leaf ρ L _ _ _ rfl n _
+  | 1, hi =>
+    have : m = exA := by simpa using hi.symm
+    subst this
+    have hn : n = 2 := by
+      rcases hl with h | ⟨_, h⟩ | ⟨h, _⟩
+      · exact absurd h (hne _ _ (by decide))
+      · exact h
+      · exact absurd h (hne _ _ (by decide))
+    subst hn
+    exact bodyOK_requires ρ L _ exLvl exA [exC] [exC] (.var "d") 0 (by rw [hM]; rfl) hMd
+      (by intro d hd; simp at hd; subst hd; exact ⟨by simp, by simp, Or.inl rfl⟩)
+      (by simp [namesOf, exA, exC])
+      (fun env σ => ⟨_, rfl⟩)
+  | 2, hi =>
+    have : m = exT := by simpa using hi.symm
+    subst this
+    have hn : n = 4 := by
+      rcases hl with h | ⟨h, _⟩ | ⟨_, h⟩
+      · exact absurd h (hne _ _ (by decide))
+      · exact absurd h (hne _ _ (by decide))
+      · exact h
+    subst hn
+    -- `a` is admissible at level 2 and so is `c` (its body is a leaf: any level)
+    exact bodyOK_requires ρ L _ exLvl exT [exC, exA] [exA, exC] (.var "d") 2 (by rw [hM]; rfl) hMd
+      (by
+        intro d hd
+        simp at hd
+        rcases hd with hd | hd <;> subst hd
+        · exact ⟨by simp, by simp, Or.inr (Or.inl ⟨rfl, rfl⟩)⟩
+        · exact ⟨by simp, by simp, Or.inl rfl⟩)
+      (by simp [namesOf, exA, exC, exT])
+      (fun env σ => ⟨_, rfl⟩)
+  | k + 3, hi => simp at hi
+end diamond
 
 /-! ## The inlining walk (`RequirePathProcessor`) -/
 
@@ -449,7 +671,7 @@ theorem inline_total (G : Graph P) (entrySites : List (Site P)) :
     (by intro stack p h; omega)
     (by intro n stack p i _ _; simp)
     (by
-      intro n stack p sites ret hc hidx hget s _ q _
+      intro n stack p sites ret hc hidx hget s _ _ q _
       have := free_lt G stack p _ (indexOf?_none_not_mem p stack hidx) hget
       omega)
   have hv := visit_errs (fun e => e ≠ .fuel) (inlineRequire G (G.length + 1) []) true entrySites
@@ -491,8 +713,8 @@ theorem inline_cyclic_sound (G : Graph P) (entrySites : List (Site P)) (ps : Lis
       · exact List.mem_append_left _ (List.mem_of_mem_drop hx)
       · exact List.mem_append_right _ hx)
     (by
-      intro n stack p sites ret hc _ hget s hs q hq
-      have he : Edge G p q := ⟨sites, ret, hget, s, hs, hq⟩
+      intro n stack p sites ret hc _ hget s hs hsh q hq
+      have he : Edge G p q := ⟨sites, ret, hget, s, hs, hsh, hq⟩
       refine ⟨isPath_snoc G stack p q hc.1 he, ?_⟩
       intro x hx
       rcases List.mem_append.mp hx with hx | hx
@@ -520,7 +742,8 @@ data files), and every require call the walk acts on resolves to a file or is ex
 structure WellFormed (G : Graph P) (entrySites : List (Site P)) : Prop where
   entry : ∀ s ∈ entrySites, s.shadowed = false → ∀ q, s.target ≠ .notFound q
   node : ∀ p, Reach G entrySites p →
-    G.get p = some .data ∨ ∃ sites, G.get p = some (.lua sites .one) ∧ ∀ s ∈ sites, ∀ q, s.target ≠ .notFound q
+    G.get p = some .data ∨
+      ∃ sites, G.get p = some (.lua sites .one) ∧ ∀ s ∈ sites, s.shadowed = false → ∀ q, s.target ≠ .notFound q
 
 /-- no cycle of requires among the files reachable from the entry -/
 def Acyclic (G : Graph P) (entrySites : List (Site P)) : Prop :=
@@ -548,15 +771,15 @@ theorem inline_wellformed_errors_cyclic (G : Graph P) (entrySites : List (Site P
         · intro h; rw [hl] at h; cases h
         · intro sites' h; rw [hl] at h; cases h
         · intro sites' h; rw [hl] at h; cases h
-        · intro sites' ret h s hs' q hq
+        · intro sites' ret h s hs' hsh q hq
           rw [hl] at h; cases h
-          exact absurd hq (hs s hs' q))
+          exact absurd hq (hs s hs' hsh q))
     (by intro stack p h; omega)
     (by intro n stack p i _ _; exact ⟨_, rfl⟩)
     (by
-      intro n stack p sites ret hc hidx hget s hs q hq
+      intro n stack p sites ret hc hidx hget s hs hsh q hq
       have := free_lt G stack p _ (indexOf?_none_not_mem p stack hidx) hget
-      exact ⟨Reach.step hc.1 ⟨sites, ret, hget, s, hs, hq⟩, by omega⟩)
+      exact ⟨Reach.step hc.1 ⟨sites, ret, hget, s, hs, hsh, hq⟩, by omega⟩)
   have hv := visit_errs (fun e => ∃ ps, e = .cyclic ps) (inlineRequire G (G.length + 1) []) true entrySites
     (by
       intro s hs q hq hsh
@@ -709,7 +932,7 @@ def exCyc : Graph Nat :=
 example : Err.cyclic [2, 3, 2] ∈ (inlineAll exCyc [⟨false, .file 1⟩]).errors := by decide
 example : Err.fuel ∉ (inlineAll exCyc [⟨false, .file 1⟩]).errors := inline_total _ _
 
-/-! ## F8: required modules are walked without scopes -/
+/-! ## F8 (fixed): every file is walked with scopes -/
 
 /-- FULL statement: a call site at which a local `require` is in scope is never rewritten —
 neither in the entry nor in a required module. -/
@@ -720,18 +943,6 @@ def shadowed_never_rewritten_full : Prop :=
     (∀ (p : Nat) (ds : List (Option Nat)) (sites : List (Site Nat)) (ret : RetShape),
       (p, ds) ∈ (inlineAll G entrySites).defs → G.get p = some (.lua sites ret) →
       ∀ (k : Nat) (s : Site Nat), sites[k]? = some s → s.shadowed = true → ds[k]? = some none)
-
-/-- witness of F8: module 1 shadows `require` and then calls it on a path resolving to file 2 -/
-def exF8 : Graph Nat := [(1, .lua [⟨true, .file 2⟩] .one), (2, .data)]
-
-/-- The full statement is FALSE of the code (finding F8): in the witness the shadowed call of
-module 1 is rewritten to the accessor of definition 0 (file 2). -/
-theorem shadowed_never_rewritten_full_false : ¬ shadowed_never_rewritten_full := by
-  intro h
-  have h2 := (h exF8 [⟨false, .file 1⟩]).2 1 [some 0] [⟨true, .file 2⟩] .one (by decide) rfl 0
-    ⟨true, .file 2⟩ (by decide) rfl
-  revert h2
-  decide
 
 theorem visit_entry_shadowed {P : Type} [DecidableEq P] (inl : P → St P → Except (Err P) Nat × St P)
     (sites : List (Site P)) (st : St P) (k : Nat) (s : Site P)
@@ -749,36 +960,42 @@ theorem visit_entry_shadowed {P : Type} [DecidableEq P] (inl : P → St P → Ex
       simp only [visit, List.getElem?_cons_succ]
       exact ih _ k hk
 
-/-- PARTIAL (what holds): under `H5 G` (no required module has a shadowed call site — the decidable
-hypothesis the driver exposes as `c05.h5`) no shadowed call site is ever rewritten; the entry,
-walked with `ScopeVisitor`, is always treated correctly. Missing for the full statement: the Rust
-walks required modules with `DefaultVisitor` (F8). -/
-theorem shadowed_never_rewritten_partial (G : Graph Nat) (entrySites : List (Site Nat)) (h5 : H5 G = true) :
+/-- Since the fix of finding F8 (required modules are walked with `ScopeVisitor`, `/repo` commit
+recorded in known_findings.json) the full statement HOLDS of the code, on every graph: no hypothesis
+`H5` any more. -/
+theorem shadowed_never_rewritten (G : Graph Nat) (entrySites : List (Site Nat)) :
     (∀ (k : Nat) (s : Site Nat), entrySites[k]? = some s → s.shadowed = true →
       (inlineAll G entrySites).entry[k]? = some none) ∧
     (∀ (p : Nat) (ds : List (Option Nat)) (sites : List (Site Nat)) (ret : RetShape),
       (p, ds) ∈ (inlineAll G entrySites).defs → G.get p = some (.lua sites ret) →
       ∀ (k : Nat) (s : Site Nat), sites[k]? = some s → s.shadowed = true → ds[k]? = some none) := by
   refine ⟨fun k s hk hs => visit_entry_shadowed _ entrySites St.empty k s hk hs, ?_⟩
-  intro p ds sites ret _ hget k s hk hs
-  exfalso
-  have hmem : ∀ (G : Graph Nat), G.get p = some (.lua sites ret) → (p, Module.lua sites ret) ∈ G := by
-    intro G
-    induction G with
-    | nil => intro h; simp [Graph.get] at h
-    | cons e G ih =>
-      obtain ⟨k', m⟩ := e
-      intro h
-      simp only [Graph.get] at h
-      split at h
-      · rename_i hk'; simp at h; subst h; subst hk'; exact List.mem_cons_self
-      · exact List.mem_cons_of_mem _ (ih h)
-  have hall := List.all_eq_true.mp h5 _ (hmem G hget)
-  simp only at hall
-  have := List.all_eq_true.mp hall s (List.mem_of_getElem? hk)
-  simp [hs] at this
+  let Q : Nat → List (Option Nat) → Prop := fun p ds =>
+    ∀ sites ret, G.get p = some (.lua sites ret) →
+      ∀ (k : Nat) (s : Site Nat), sites[k]? = some s → s.shadowed = true → ds[k]? = some none
+  have key := inlineRequire_defs G Q
+    (by intro p hp sites ret h; rw [hp] at h; cases h)
+    (by
+      intro p sites ret inl st hget sites' ret' h k s hk hs
+      rw [hget] at h; cases h
+      exact visit_entry_shadowed inl sites st k s hk hs)
+    (G.length + 1) []
+  have hv := visit_defs Q (inlineRequire G (G.length + 1) []) true entrySites key St.empty
+    (by intro pd hpd; simp [St.empty] at hpd)
+  intro p ds sites ret hmem hget k s hk hs
+  exact hv (p, ds) hmem sites ret hget k s hk hs
 
--- non-vacuity: `exDag` satisfies H5 and its entry has a shadowed site
-example : H5 exDag = true ∧ exEntry[2]? = some ⟨true, .file 3⟩ := by decide
+theorem shadowed_never_rewritten_full_holds : shadowed_never_rewritten_full :=
+  fun G entrySites => shadowed_never_rewritten G entrySites
+
+/-- the former witness of F8: module 1 shadows `require` and then calls it on a path resolving to file 2 -/
+def exF8 : Graph Nat := [(1, .lua [⟨true, .file 2⟩] .one), (2, .data)]
+
+-- regression: on the old witness the fixed model leaves the shadowed call alone and does not bundle file 2
+example : (inlineAll exF8 [⟨false, .file 1⟩]).defs = [(1, [none])] ∧
+    (inlineAll exF8 [⟨false, .file 1⟩]).errors = [] := by decide
+
+-- non-vacuity: a graph whose entry AND a required module have shadowed call sites
+example : exEntry[2]? = some ⟨true, .file 3⟩ ∧ exF8.get 1 = some (.lua [⟨true, .file 2⟩] .one) := ⟨by decide, rfl⟩
 
 end DarkluaModel.C05
